@@ -573,3 +573,6 @@ class C16(Prop):
 
 
 PROP = C16()
+
+PROP.rule += (" Strata added while closing seeded changes (DESIGN section 10): "
+              'edits between writes incl. table replaced keeping the last depth, duplicated-then-deleted items, renames.')
